@@ -7,9 +7,11 @@ import (
 
 // RefResult is what a reference model predicts for one run.
 type RefResult struct {
-	Out   any
-	Fail  string // "" | maxsteps | notasks | merge | inputkey | fault | sub:<class>
-	Execs []Exec // lambda executions in model order
+	Out  any
+	Fail string // "" | maxsteps | notasks | merge | inputkey | fault | sub:<class>
+	// MaxSize: the largest total size (sizeOf) of the values delivered in one step of a pregel level
+	MaxSize int
+	Execs   []Exec // lambda executions in model order
 	// Optional: executions (a sub-multiset of Execs) of nodes that do not lead to END in an
 	// all-predecessor graph: the run may return before or after they start.
 	Optional []Exec
@@ -55,6 +57,9 @@ func (r *RefResult) absorb(sub *RefResult) {
 	r.Leftover = r.Leftover || sub.Leftover
 	if sub.MaxNodeRuns > r.MaxNodeRuns {
 		r.MaxNodeRuns = sub.MaxNodeRuns
+	}
+	if sub.MaxSize > r.MaxSize {
+		r.MaxSize = sub.MaxSize
 	}
 	for k, v := range sub.NodeRuns {
 		r.NodeRuns[k] += v
@@ -253,6 +258,9 @@ func refPregel(sp *Spec, path string, in any, o RefOpts) *RefResult {
 		big := 0
 		for _, v := range merged {
 			big += sizeOf(v, 1<<18)
+		}
+		if big > res.MaxSize {
+			res.MaxSize = big
 		}
 		if big >= 1<<18 {
 			res.Fail = "toobig"
